@@ -88,3 +88,16 @@ Theorem C03_triangulate2d_tiling {T} `{Num T} : forall (v : list (pt2 T)), (3 < 
   (forall i, (0 <= i < n)%Z -> cntT i ((i + 1) mod n) tris = 1%nat /\ cntT ((i + 1) mod n) i tris = 0%nat) /\
   (forall a b, ~ ((0 <= a < n)%Z /\ b = ((a + 1) mod n)%Z) -> ~ ((0 <= b < n)%Z /\ a = ((b + 1) mod n)%Z) -> cntT a b tris = cntT b a tris).
 Proof. exact (@triangulate2d_tiling T H). Qed.
+
+(* ---- completion, where it can be proved: on the real reading the first vertex of a strictly convex polygon (all increasing
+        position triples strictly oriented the same way) is always an ear, so the run returns n - 2 triangles and every
+        theorem above that assumes a complete run applies; every circle outline (n >= 3, r <> 0) is such a polygon, in both
+        vertex orders ---- *)
+From SCAD Require Import Geom.Tri_convex Geom.Dim2.
+Theorem C03_convex_complete : forall sigma (p : list (@vtx R)), conv sigma p -> (3 <= length p)%nat -> complete p.
+Proof. exact convex_complete. Qed.
+Theorem C03_circle_complete : forall (radius : R) (segments : Z) (c : list (pt2 R)), (3 <= segments)%Z -> radius <> 0%R ->
+  circle radius segments = Some c -> conv false (enumerate c) /\ complete (enumerate c) /\ complete (rev (enumerate c)).
+Proof.
+  intros r s c Hs Hr Hc. split; [exact (circle_convex r s c Hs Hr Hc)|exact (circle_caps_complete r s c Hs Hr Hc)].
+Qed.
